@@ -82,6 +82,109 @@ def run_model(model, text, timeout=900):
     return rc, res, err
 
 
+import re as _re
+
+
+def reason_of(mv):
+    """refusal reason printed by the driver (reason=...)"""
+    m = _re.search(r"reason=(\S+)", mv[1] if len(mv) > 1 else "")
+    return m.group(1) if m else (mv[0] if mv[0] != "ok" else "ok")
+
+
+def corrupt_dump(block_text, kind, rng):
+    """`refusal is justified` audit: damage the TARGET side of a real dump the way a wrong allocator would (python, untrusted) -
+    the validator is expected to refuse. Returns the damaged text or None if the block has no suitable line."""
+    lines = block_text.split("\n")
+    tix = [i for i, l in enumerate(lines) if l.startswith("T ")]
+    if kind == "drop-inserted-move":
+        c = [i for i in tix if lines[i].startswith("T - mov ")]
+        if not c:
+            return None
+        del lines[rng.choice(c)]
+    elif kind == "shift-reload-slot":
+        c = [i for i in tix if _re.match(r"T - mov r\S+ s-?\d+ ", lines[i])]
+        if not c:
+            return None
+        i = rng.choice(c)
+        lines[i] = _re.sub(r"(T - mov r\S+ s)(-?\d+) ", lambda m: "%s%d " % (m.group(1), int(m.group(2)) + 8), lines[i], count=1)
+    elif kind == "retarget-inserted-move":
+        c = [i for i in tix if _re.match(r"T - mov r0\.\d+ ", lines[i])]
+        if not c:
+            return None
+        i = rng.choice(c)
+        lines[i] = _re.sub(r"T - mov r0\.(\d+) ", lambda m: "T - mov r0.%d " % ((int(m.group(1)) + 1) % 16 if int(m.group(1)) != 3 else 5), lines[i], count=1)
+    else:
+        return None
+    return "\n".join(lines)
+
+
+# mnemonic -> algebraic class of RwRuleModel.alu (the only hand-written part of the idiom table; its meaning is alu_sem, the
+# theorems C05_idiom_* are about these classes). first-operand access the DB must show: x = read-write, w = write-only.
+IDIOM_SPEC = [
+    ("xor", "AXor", "x"), ("sub", "ASub", "x"), ("or", "AOr", "x"), ("and", "AAnd", "x"), ("add", "AAdd", "x"),
+    ("shl", "AShl", "x"), ("shr", "AShr", "x"), ("sar", "ASar", "x"), ("rol", "ARol", "x"), ("ror", "ARor", "x"),
+    ("pxor", "VXor", "x"), ("vpxor", "VXor", "w"), ("vpxord", "VXor", "w"), ("kxorq", "VXor", "w"),
+    ("psubd", "VSubD", "x"), ("vpsubd", "VSubD", "w"), ("pcmpeqd", "VCmpEqD", "x"), ("vpcmpeqd", "VCmpEqD", "w"),
+    ("pand", "VAnd", "x"), ("vpand", "VAnd", "w"), ("vpandd", "VAnd", "w"), ("kandq", "VAnd", "w"),
+    ("por", "VOr", "x"), ("vpor", "VOr", "w"), ("korq", "VOr", "w"),
+]
+
+
+def gen_idiom_tags(ck, impl):
+    """translator: instruction ids of the tagged mnemonics from the tree under test (InstAPI::string_to_inst_id, round trip
+    through inst_id_to_string), cross-checked with db/isa_x86.json (the mnemonic exists, its first operand has the expected
+    access); result = text of coq/gen/C05IdiomTags.v. Returns (text, problems)."""
+    import json as _json
+    problems = []
+    rc, out, err = vlib.sh([impl, "tags"] + [m for m, _, _ in IDIOM_SPEC], timeout=60)
+    ids = {}
+    for line in out.split("\n"):
+        t = line.split()
+        if len(t) == 3:
+            if t[0] != t[2] or t[1] == "0":
+                problems.append("mnemonic %s does not round-trip through the instruction id (%s -> %s)" % (t[0], t[1], t[2]))
+            ids[t[0]] = int(t[1])
+    db = _json.load(open(os.path.join(vlib.REPO, "db", "isa_x86.json")))
+    forms = {}
+    for grp in db["instructions"]:
+        for ins in grp["instructions"]:
+            txt = ins.get("any") or ins.get("x64") or ins.get("x86") or ""
+            txt = _re.sub(r"^\[[^\]]*\]\s*", "", txt)
+            name = txt.split(" ")[0] if txt else ""
+            forms.setdefault(name, []).append(txt)
+    for m, cls, acc in IDIOM_SPEC:
+        if m not in ids:
+            problems.append("no instruction id for %s" % m)
+        fs = forms.get(m, [])
+        if not fs:
+            problems.append("mnemonic %s is not in db/isa_x86.json" % m)
+        elif not any(_re.match(r"%s %s:" % (_re.escape(m), acc), f, _re.I) for f in fs):
+            problems.append("db/isa_x86.json: first operand of %s is not '%s:' in any form (%s)" % (m, acc, fs[:2]))
+    rows = ";\n    ".join("(%d, %s) (* %s *)" % (ids.get(m, 0), cls, m) for m, cls, _ in IDIOM_SPEC)
+    text = ("(* GENERATED by tools/checks/c05.py (gen_idiom_tags) from the x86 instruction ids of the tree under test and\n"
+            "   db/isa_x86.json - do not edit. instruction id -> algebraic class used by RwRuleModel.idiom_of. *)\n"
+            "From Coq Require Import NArith List Bool.\nFrom Verif Require Import RegAlloc.RwRuleModel.\nImport ListNotations.\nLocal Open Scope N_scope.\n\n"
+            "Definition idiom_tags : list (N * alu) :=\n  [ %s ].\n\n"
+            "Lemma idiom_tags_distinct : ids_distinct idiom_tags = true.\nProof. vm_compute. reflexivity. Qed.\n" % rows)
+    return text, problems
+
+
+def own_regen(ck, name, text):
+    """like ck.coq_regen, but only THIS property's generated file is recompiled (the scratch gen dir holds nothing else):
+    None if the text equals the committed coq/gen/<name>, else (gen_dir, failed_files, log)."""
+    import shutil
+    committed = os.path.join(vlib.COQ, "gen", name)
+    if os.path.exists(committed) and open(committed).read() == text:
+        return None
+    wgen = os.path.join(ck.work, "gen")
+    shutil.rmtree(wgen, ignore_errors=True)
+    os.makedirs(wgen)
+    open(os.path.join(wgen, name), "w").write(text)
+    ck.coq_make(["theories/RegAlloc/RwRuleModel.vo"])
+    rc, out, err = vlib.sh(["coqc", "-Q", os.path.join(vlib.COQ, "theories"), "Verif", "-Q", wgen, "VerifGen", "-w", "-all", os.path.join(wgen, name)], cwd=wgen, timeout=600)
+    return wgen, ([name] if rc != 0 else []), (out + err)[-2000:]
+
+
 def replay_cmd(seed, index, features):
     return {"seed": seed, "index": index, "features": features,
             "cmd": "build/harness/c05-plain-* %d %d 1 2000 %d 1 | build/ml/c05/c05-*" % (seed, index, features)}
@@ -89,10 +192,22 @@ def replay_cmd(seed, index, features):
 
 def run(ck):
     rng = random.Random(ck.seed)
-    obl = ck.coq_properties()
-    ck.log("theorems: %d, failed: %d" % (len(obl), len([o for o in obl if not o["ok"]])))
     impl = ck.build_harness("c05", ["c05_harness.cpp"])
-    model = ck.ocaml_model("Extract_RegAlloc.v", ["zconv.ml", "c05_driver.ml"], name="c05")
+    # translator tie: the instruction-id -> idiom-class table is regenerated from the tree under test on every run
+    tags_text, tag_problems = gen_idiom_tags(ck, impl)
+    regen = own_regen(ck, "C05IdiomTags.v", tags_text)
+    gen_dir = None
+    if regen is not None:
+        gen_dir, failed, rlog = regen
+        ck.log("idiom tag table differs from the committed snapshot (instruction ids changed): regenerated in %s, failed: %s" % (gen_dir, failed))
+        if failed:
+            ck.violation("C05/idiom-tags", "the regenerated idiom tag table no longer checks: %s %s" % (failed, rlog[-400:]),
+                         {"broken": "coq/gen/C05IdiomTags.v (ids_distinct)"}, no_input=True)
+    for pr in tag_problems:
+        ck.violation("C05/idiom-tags", "idiom tag table: " + pr, {"broken": "translator gen_idiom_tags vs db/isa_x86.json"}, no_input=True)
+    obl = ck.coq_properties(gen_dir=gen_dir)
+    ck.log("theorems: %d, failed: %d" % (len(obl), len([o for o in obl if not o["ok"]])))
+    model = ck.ocaml_model("Extract_RegAlloc.v", ["zconv.ml", "c05_driver.ml"], name="c05", gen_dir=gen_dir)
 
     if ck.replay:
         rp = json.load(open(ck.replay))["replay"]
@@ -100,6 +215,10 @@ def run(ck):
             rc, out, err = run_harness(impl, ["jt7", 60, 30])
         elif "probe" in rp:
             rc, out, err = run_harness(impl, ["probe", rp["probe"], 200, 1])
+        elif rp.get("skel"):
+            rc, out, err = run_harness(impl, ["skel", rp["seed"], rp["index"], 1, 2000, 1])
+        elif rp.get("x32"):
+            rc, out, err = run_harness(impl, ["x32", rp["seed"], rp["index"], 1, 1])
         elif rp.get("a64"):
             rc, out, err = run_harness(impl, ["a64", rp["seed"], rp["index"], 1, 1, rp.get("lists", 1)])
         else:
@@ -142,8 +261,8 @@ def run(ck):
         features &= ~256          # keep that shape out of the random stream while the defect is present
         b0 = jt_bad[0] if jt_bad else None
         ck.violation("C05/probe/jump-table-merged-targets",
-                     "annotated jump tables whose entries are bound back to back at the end of the function (one block named by several entries/tables, "
-                     "also entered by falling through) are miscompiled: %s" % (("program jt7 index %d: %s; validator: %s" % (b0["index"], b0["X"], " ".join(mres.get(b0["index"], ("none", "")))[:200])) if b0 else "harness rc=%d" % rc),
+                     "detector programs for the (repaired) jump-table defect - entries bound back to back, one block named by several entries/tables, also "
+                     "entered by falling through - are miscompiled again, by that or another defect: %s" % (("program jt7 index %d: %s; validator: %s" % (b0["index"], b0["X"], " ".join(mres.get(b0["index"], ("none", "")))[:200])) if b0 else "harness rc=%d" % rc),
                      {"probe": "jt7", "index": b0["index"] if b0 else -1, "execution": b0["X"] if b0 else None},
                      no_input=not (rc != 0 or any((b["X"] or "").startswith("diverge") for b in jt_bad)))
     # detector for the repaired defect bc95664 (consecutive OUT registers of ld1 {v,v,..} overwrote live values): 120 fixed
@@ -163,13 +282,14 @@ def run(ck):
         mv0 = mres.get(b0["index"], ("none", "")) if b0 else ("none", "")
         ce = "ir-counterexample" in mv0[1]
         ck.violation("C05/probe/a64-list-out-clobber",
-                     "AArch64 ld1 {v..} register lists: the consecutive destination registers overwrite live values (or the allocator crashes): %s" %
+                     "detector programs for the (repaired) AArch64 register-list defect (ld1 {v..}: consecutive destination registers overwrote live values / crash) "
+                     "fail again, by that or another defect: %s" %
                      (("program a64 seed 777 index %d: %s %s" % (b0["index"], mv0[0], mv0[1][:300])) if b0 else "harness rc=%d after %d programs" % (rc, len(blocks))),
                      {"a64": True, "seed": 777, "index": b0["index"] if b0 else len(blocks), "lists": 1}, no_input=not (ce or rc != 0))
     ck.log("probes: %s -> generator features %d" % (probe_results, features))
 
     # ------------------------------------------------------------------ random stream
-    nprog = 1400 if ck.tier == "quick" else 60000
+    nprog = 1000 if ck.tier == "quick" else 60000
     inputs = 20 if ck.tier == "quick" else 60
     seed = ck.seed
     shard = 40 if ck.tier == "quick" else 250
@@ -189,8 +309,14 @@ def run(ck):
     samples = []
     nontrivial = 0
     disagreements = 0
+    refusal_hist = {}
+    audit_blocks = []
     for first, count, rc, out, mrc, mres, errtxt in results:
         blocks = parse_blocks(out)
+        if len(audit_blocks) < 45:
+            for chunk in out.split("\nE\n")[:3]:
+                if "\nT - mov " in chunk and "\nX ok" in chunk:
+                    audit_blocks.append(chunk + "\nE\n")
         if rc != 0 or mrc != 0 or len(blocks) != count:
             # localise the crashing program
             bad = first + max(0, len(blocks) - 1)
@@ -232,6 +358,7 @@ def run(ck):
                                 "source_instrs": b["nS"], "target_instrs": b["nT"], "inserted": b["ins"]})
             if x.startswith("diverge") or (not b["U"] and mv[0] != "ok"):
                 disagreements += 1
+                refusal_hist[reason_of(mv)] = refusal_hist.get(reason_of(mv), 0) + 1
             if x.startswith("diverge"):
                 ck.violation("C05/miscompile", "compiled function differs from the source program: %s; validator: %s %s (seed=%d index=%d features=%d)" %
                              (x, mv[0], mv[1][:200], seed, idx, features), dict(replay_cmd(seed, idx, features), execution=x, validator=list(mv)))
@@ -251,7 +378,7 @@ def run(ck):
                                  "execute like the source program" % (seed, idx, features, mv[0], mv[1][:500]),
                                  dict(replay_cmd(seed, idx, features), validator=list(mv), broken="RaIRModel.validate (clause at the reported target pc)"), no_input=True)
     # ------------------------------------------------------------------ AArch64 stream: validator only (no AArch64 CPU here)
-    na64 = 500 if ck.tier == "quick" else 30000
+    na64 = 400 if ck.tier == "quick" else 30000
     ashard = 30 if ck.tier == "quick" else 200
     aranges = [(i, min(ashard, na64 - i)) for i in range(0, na64, ashard)]
 
@@ -303,6 +430,7 @@ def run(ck):
                 a64["validated_ok"] += 1
             else:
                 disagreements += 1
+                refusal_hist["a64:" + reason_of(mv)] = refusal_hist.get("a64:" + reason_of(mv), 0) + 1
                 # no AArch64 CPU: the search oracle is the pair of extracted IR interpreters run by the driver under random
                 # instruction semantics and inputs (a counterexample is a concrete diverging run of the dumped pair)
                 ce = mv[1][mv[1].find("ir-counterexample"):] if "ir-counterexample" in mv[1] else None
@@ -314,7 +442,126 @@ def run(ck):
                                  "execution oracle is available on this host" % (seed, idx, mv[0], mv[1][:400]),
                                  {"a64": True, "seed": seed, "index": idx, "validator": list(mv), "broken": "RaIRModel.validate_full on a64::Compiler output"}, no_input=True)
     ck.log("a64 stream: %s" % a64)
+
+    # ------------------------------------------------------------------ x86-32 stream: validator only (32-bit code cannot run in this process)
+    nx32 = 300 if ck.tier == "quick" else 20000
+    xranges = [(i, min(ashard, nx32 - i)) for i in range(0, nx32, ashard)]
+
+    def one_x32(r):
+        first, count = r
+        rc, out, err = run_harness(impl, ["x32", seed, first, count], timeout=1500)
+        mrc, mres, merr = run_model(model, out, timeout=2500)
+        return first, count, rc, out, mrc, mres, (err[-300:] + merr[-300:])
+    with ThreadPoolExecutor(max_workers=vlib.NPROC) as ex:
+        xresults = list(ex.map(one_x32, xranges))
+    x32 = {"programs": 0, "validated_ok": 0, "unsupported": 0, "source_instrs": 0, "target_instrs": 0, "inserted_instrs": 0, "with_slots": 0, "with_swaps": 0, "unencodable_byte_spill": 0}
+    for first, count, rc, out, mrc, mres, errtxt in xresults:
+        blocks = parse_blocks(out)
+        if rc != 0 or mrc != 0 or len(blocks) != count:
+            bad = first + max(0, len(blocks) - 1)
+            ck.violation("C05/x86-32/crash", "x86-32 allocator/harness failed (harness rc=%s, model rc=%s) near program seed=%d index=%d: %s" % (rc, mrc, seed, bad, errtxt),
+                         {"x32": True, "seed": seed, "index": bad})
+        for b in blocks:
+            x32["programs"] += 1
+            idx = b["index"]
+            if b["G"]:
+                ck.violation("C05/x86-32/ra-error", "x86::Compiler (32-bit) returned an error for a valid generated program: %s (seed=%d index=%d)" % (b["G"], seed, idx),
+                             {"x32": True, "seed": seed, "index": idx})
+                continue
+            if b["U"]:
+                x32["unsupported"] += 1
+                unsupported_why["x86-32: " + b["U"]] = unsupported_why.get("x86-32: " + b["U"], 0) + 1
+                continue
+            mv = mres.get(idx, ("none", ""))
+            x32["source_instrs"] += b["nS"]; x32["target_instrs"] += b["nT"]; x32["inserted_instrs"] += b["ins"]
+            x32["with_slots"] += 1 if b["slot"] else 0
+            x32["with_swaps"] += 1 if b["swap"] else 0
+            if b["ins"] or b["slot"]:
+                nontrivial += 1
+            xx = b["X"] or ""
+            if xx.startswith("serialize-error"):
+                if "InvalidRexPrefix" in xx and "mov byte ptr [esp" in xx:
+                    x32["unencodable_byte_spill"] += 1
+                    ck.violation("C05/x86-32/byte-spill-non-byte-register", "the allocated x86-32 program cannot be assembled: %s (seed=%d index=%d)" % (xx, seed, idx),
+                                 {"x32": True, "seed": seed, "index": idx})
+                else:
+                    ck.violation("C05/x86-32/serialize", "the allocated x86-32 program cannot be assembled: %s (seed=%d index=%d)" % (xx, seed, idx),
+                                 {"x32": True, "seed": seed, "index": idx, "broken": "serialization of x86-32 allocator output"}, no_input=True)
+            if mv[0] == "ok":
+                x32["validated_ok"] += 1
+            else:
+                disagreements += 1
+                refusal_hist["x86-32:" + reason_of(mv)] = refusal_hist.get("x86-32:" + reason_of(mv), 0) + 1
+                ce = mv[1][mv[1].find("ir-counterexample"):] if "ir-counterexample" in mv[1] else None
+                if ce:
+                    ck.violation("C05/x86-32/miscompile", "x86-32 allocation of program seed=%d index=%d changes the meaning of the program: %s; validator: %s %s" %
+                                 (seed, idx, ce[:300], mv[0], mv[1][:200]), {"x32": True, "seed": seed, "index": idx, "validator": list(mv), "counterexample": ce})
+                else:
+                    ck.violation("C05/x86-32/validator-reject", "the proven validator refuses the x86-32 allocation of program seed=%d index=%d (%s %s)" % (seed, idx, mv[0], mv[1][:400]),
+                                 {"x32": True, "seed": seed, "index": idx, "validator": list(mv), "broken": "RaIRModel.validate_full on 32-bit x86::Compiler output"}, no_input=True)
+    ck.log("x86-32 stream: %s" % x32)
     stats["programs"] += 0
+    # ------------------------------------------------------------------ systematic CFG skeletons (x86-64, executed)
+    # every skeleton of 2..5 blocks (terminator of each block: fall through / conditional / unconditional to any block, backward
+    # ones guarded) x pressure {8, 14, 15, 28}: 61 696 programs. thorough: all of them; quick: 32 windows of 10 consecutive ones.
+    SKEL_TOTAL = 4 * (5 + 49 + 729 + 14641)
+    if ck.tier == "quick":
+        sranges = [(rng.randrange(0, SKEL_TOTAL - 10), 10) for _ in range(20)] + [(0, 30)]
+    else:
+        sranges = [(i, min(400, SKEL_TOTAL - i)) for i in range(0, SKEL_TOTAL, 400)]
+
+    def one_skel(r):
+        first, count = r
+        rc, out, err = run_harness(impl, ["skel", seed, first, count, 12 if ck.tier == "quick" else 30], timeout=1500)
+        mrc, mres, merr = run_model(model, out, timeout=2500)
+        return first, count, rc, out, mrc, mres, (err[-300:] + merr[-300:])
+    with ThreadPoolExecutor(max_workers=vlib.NPROC) as ex:
+        sresults = list(ex.map(one_skel, sranges))
+    skel = {"skeletons_total": SKEL_TOTAL, "programs": 0, "executed_ok": 0, "validated_ok": 0}
+    for first, count, rc, out, mrc, mres, errtxt in sresults:
+        blocks = parse_blocks(out)
+        if rc != 0 or mrc != 0 or len(blocks) != count:
+            ck.violation("C05/skeleton/crash", "allocator/harness failed on CFG skeleton window %d+%d (harness rc=%s, model rc=%s): %s" % (first, count, rc, mrc, errtxt),
+                         {"skel": True, "seed": seed, "index": first + max(0, len(blocks) - 1)})
+        for b in blocks:
+            skel["programs"] += 1
+            idx = b["index"]
+            mv = mres.get(idx, ("none", ""))
+            x = b["X"] or "none"
+            if b["G"] or b["U"]:
+                ck.violation("C05/skeleton/unsupported", "CFG skeleton %d could not be processed: %s" % (idx, b["G"] or b["U"]), {"skel": True, "seed": seed, "index": idx, "broken": "C05 harness"}, no_input=True)
+                continue
+            if b["ins"] or b["slot"]:
+                nontrivial += 1
+            if x.startswith("ok"):
+                skel["executed_ok"] += 1
+            if mv[0] == "ok":
+                skel["validated_ok"] += 1
+            if x.startswith("diverge") or mv[0] != "ok":
+                disagreements += 1
+                refusal_hist["skeleton:" + reason_of(mv)] = refusal_hist.get("skeleton:" + reason_of(mv), 0) + 1
+                ck.violation("C05/miscompile" if x.startswith("diverge") else "C05/validator-reject",
+                             "CFG skeleton %d (seed %d): execution %s; validator: %s %s" % (idx, seed, x, mv[0], mv[1][:300]),
+                             {"skel": True, "seed": seed, "index": idx, "execution": x, "validator": list(mv), "broken": "RaIRModel.validate_full"}, no_input=not x.startswith("diverge"))
+    ck.log("skeleton stream: %s" % skel)
+
+    # ------------------------------------------------------------------ `refusal is justified` audit
+    # (1) histogram of the refusal reasons seen in this run (empty on a correct tree); (2) sensitivity: real accepted dumps are
+    # damaged the way a wrong allocator would (drop an inserted move, reload from a slot 8 bytes further, send an inserted move
+    # to another register) and validated again - what is still accepted must be explainable (dead move)
+    audit = {"accepted_sampled": len(audit_blocks), "corruptions": {}}
+    arng = random.Random(ck.seed * 7 + 1)
+    for kind in ("drop-inserted-move", "shift-reload-slot", "retarget-inserted-move"):
+        texts = [t for t in (corrupt_dump(b, kind, arng) for b in audit_blocks) if t]
+        _, cres, _ = run_model(model, "".join(texts), timeout=900) if texts else (0, {}, "")
+        hist = {}
+        for v in cres.values():
+            hist[reason_of(v)] = hist.get(reason_of(v), 0) + 1
+        audit["corruptions"][kind] = {"tried": len(texts), "still_accepted": hist.get("ok", 0), "refusal_reasons": {k: v for k, v in hist.items() if k != "ok"}}
+        if texts and hist.get("ok", 0) * 2 > len(texts):
+            ck.violation("C05/audit/" + kind, "the validator still accepts more than half of the dumps damaged by '%s' (%d of %d)" % (kind, hist.get("ok", 0), len(texts)),
+                         {"broken": "sensitivity of RaIRModel.validate_full", "kind": kind}, no_input=True)
+    ck.log("audit: %s; refusal histogram: %s" % (audit, refusal_hist))
     # coverage must not silently erode
     if stats["programs"] and stats["unsupported"] * 20 > stats["programs"]:
         ck.violation("C05/coverage", "more than 5%% of the generated programs are outside the modelled subset: %s" % unsupported_why,
@@ -325,20 +572,20 @@ def run(ck):
     ck.log("stream: %s" % stats)
     return ck.finish(
         "translation_validation",
-        {"programs": stats["validated_ok"] + a64["validated_ok"], "disagreements_checked": disagreements,
-         "evaluations": stats["programs"] * inputs + a64["programs"], "distinct_nontrivial": nontrivial,
+        {"programs": stats["validated_ok"] + a64["validated_ok"] + x32["validated_ok"] + skel["validated_ok"], "disagreements_checked": disagreements,
+         "evaluations": stats["programs"] * inputs + a64["programs"] + x32["programs"], "distinct_nontrivial": nontrivial,
          "rule": "programs generated from VERIF_SEED (index mod 6 = pressure class: 1-6, 8-13, 13-17, 18-37, 40-99, 100-200 simultaneously live values; "
                  "straight-line, diamonds, loops, irreducible jumps; mul/div/shift-by-cl fixed registers, partial writes, same-register idioms, "
                  "register-or-memory operands); a program is non-trivial when the allocator inserted at least one instruction or replaced a register "
                  "operand by a frame slot; every program is validated by the extracted validator AND executed on %d inputs against the interpreter" % inputs,
-         "samples": samples, "stream": stats, "a64_stream": a64, "unsupported": unsupported_why, "probes": probe_results, "generator_features": features,
+         "samples": samples, "refusal_histogram": refusal_hist, "refusal_audit": audit, "stream": stats, "a64_stream": a64, "x86_32_stream": x32, "cfg_skeletons": skel, "unsupported": unsupported_why, "probes": probe_results, "generator_features": features,
          "level_detail": "translation validation: machine-checked validator (universal over inputs), sampled over programs",
          "traces_validated_against_impl": stats["validated_ok"]},
         assumptions=["theorems are about the RaIR model; the dumper (harness/c05_harness.cpp) is trusted to print the node lists, to derive uses/defs from "
                      "InstAPI::query_rw_info + the virtual register size (partial-write rule, same-register/immediate idioms written by hand), to strip "
                      "prolog/epilog (compared with emit_prolog/emit_epilog of the final frame) and to classify inserted instructions (mov/movzx/xchg only)",
                      "instruction semantics are abstracted to uses/defs (their truth is C12's subject); flags are six pseudo registers",
-                     "AArch64 (GP w/x and 128-bit vector registers, calls through a register with register and stack arguments) is validated but NOT executed (no AArch64 CPU/emulator on this host); x86-64 GP virtual registers of 1/2/4/8 bytes, calls of C helpers with register and stack arguments; 16-byte vector registers (SSE2 integer subset), AVX and AVX-512 functions with 32- and 64-byte vectors (32 vector registers), 64-bit mask registers and a re-aligned stack, annotated jump tables, calls of SysV and Windows-x64 callees; no x86-32, or immediates as call arguments in this version (function arguments in registers and on the stack are covered)",
+                     "AArch64 (GP w/x and 128-bit vector registers, calls through a register with register and stack arguments) is validated but NOT executed (no AArch64 CPU/emulator on this host); x86-64 GP virtual registers of 1/2/4/8 bytes, calls of C helpers with register and stack arguments; 16-byte vector registers (SSE2 integer subset), AVX and AVX-512 functions with 32- and 64-byte vectors (32 vector registers), 64-bit mask registers and a re-aligned stack, annotated jump tables, calls of SysV and Windows-x64 callees; x86-32 (cdecl/fastcall; validated, not executed); or immediates as call arguments in this version (function arguments in registers and on the stack are covered)",
                      "generated programs never read a virtual register beyond its size and define every register on every path"],
         checker_cmd="coqc (Coq 8.16.1) -Q coq/theories Verif coq/theories/Properties/Properties_C05.v  [full .vo build of its dependencies]",
         trusted_base=["Coq 8.16.1 kernel incl. vm_compute (no native_compute)", "no axioms: every theorem 'Closed under the global context'",
